@@ -187,6 +187,7 @@ func (s *Server) serveOne(ctx context.Context, r io.Reader, w io.Writer, shmConn
 				emptySchema := arrow.NewSchema(nil, nil)
 				s.logIPCWriteErr("error-response", req.Method,
 					writeErrorResponse(w, emptySchema, rpcErr, s.serverID, req.RequestID, s.debugErrors))
+				s.drainRefusedStream(r, req.Method)
 				return nil
 			}
 			req.Batch.Release()
@@ -221,6 +222,7 @@ func (s *Server) serveOne(ctx context.Context, r io.Reader, w io.Writer, shmConn
 		emptySchema := arrow.NewSchema(nil, nil)
 		s.logIPCWriteErr("error-response", req.Method,
 			writeErrorResponse(w, emptySchema, rpcErr, s.serverID, req.RequestID, s.debugErrors))
+		s.drainRefusedStream(r, req.Method)
 		return nil
 	}
 
@@ -352,6 +354,16 @@ func (s *Server) serveOne(ctx context.Context, r io.Reader, w io.Writer, shmConn
 	}
 
 	return transportErr
+}
+
+// drainRefusedStream consumes the input stream the client of a stream method
+// has already written (it writes before it reads) when the request is refused
+// before dispatch, so the next ReadRequest starts at a request boundary.
+// Unary and unknown methods have no input stream to drain.
+func (s *Server) drainRefusedStream(r io.Reader, method string) {
+	if info, ok := s.methods[method]; ok && methodTypeString(info.Type) == DispatchMethodStream {
+		drainInputStream(r)
+	}
 }
 
 // serveUnary dispatches a unary method call.
